@@ -16,6 +16,9 @@ pub enum Variant_ {
     RawSecret { len_mod: u16, blocks: u8, fill: u8 },
     /// a crafted plaintext (length prefix, body) encrypted with the real public key
     Crafted { prefix: u32, body: Vec<u8> },
+    /// a crafted plaintext with a consistent length prefix; the server nonce is *defined* as the last `nonce_len` bytes of the
+    /// whole plaintext, so the nonce comparison succeeds even when the nonce reaches into the length prefix
+    CraftedTail { body: Vec<u8>, nonce_len: u8 },
     NullSecret,
 }
 
@@ -130,6 +133,26 @@ fn check(ctx: &Ctx, c: &Case) -> PResult {
             }
             Ok(())
         }
+        Variant_::CraftedTail { body, nonce_len } => {
+            let mut plain = (body.len() as u32).to_le_bytes().to_vec();
+            plain.extend_from_slice(body);
+            let n = (*nonce_len as usize).min(plain.len());
+            let nonce = plain[plain.len() - n..].to_vec();
+            let pk = cert.public_key().map_err(|e| Failure { sig: "fixture".into(), detail: format!("{}", e) })?;
+            let size = pk.calculate_cipher_text_size(plain.len(), padding);
+            let mut dst = vec![0u8; size];
+            let Ok(m) = pk.public_encrypt(&plain, &mut dst, padding) else { return Ok(()) };
+            dst.truncate(m);
+            ctx.nontrivial();
+            ctx.class(if n > body.len() { "crafted_nonce_reaches_into_the_length_prefix" } else { "crafted_nonce_at_the_tail" });
+            let r = ctx.guard(|| legacy_password_decrypt(&ByteString::from(dst), &nonce, &key, padding))?;
+            // reference: the secret holds the nonce only if the body is at least as long as the nonce
+            let expect_ok = n <= body.len() && std::str::from_utf8(&body[..body.len() - n]).is_ok();
+            if r.is_ok() != expect_ok {
+                return ctx.fail(format!("crafted-tail/{}", if expect_ok { "valid-rejected" } else { "invalid-accepted" }), format!("plaintext {:02x?} with the nonce defined as its last {} bytes: decrypt returned {:?}", plain, n, r));
+            }
+            Ok(())
+        }
         Variant_::NullSecret => {
             let r = ctx.guard(|| legacy_password_decrypt(&ByteString::null(), &c.nonce, &key, padding))?;
             if r.is_ok() {
@@ -159,6 +182,11 @@ fn variant() -> impl Strategy<Value = Variant_> {
         3 => (prop_oneof![Just(0u32), Just(u32::MAX), 0u32..80, Just(1u32 << 31)], proptest::collection::vec(any::<u8>(), 0..60)).prop_map(|(prefix, body)| Variant_::Crafted { prefix, body }),
         // crafted with a consistent prefix so the decrypt gets past the length check
         3 => (proptest::collection::vec(any::<u8>(), 0..60), -2i32..3).prop_map(|(body, d)| Variant_::Crafted { prefix: (body.len() as i32 + d).max(0) as u32, body }),
+        3 => (proptest::collection::vec(any::<u8>(), 0..48), 0i32..6, any::<bool>()).prop_map(|(body, over, inside)| {
+            // nonce lengths around the body length: inside the body, exactly the body, 1..5 bytes into the prefix
+            let nonce_len = if inside { (body.len() as i32 - over).max(0) } else { body.len() as i32 + over };
+            Variant_::CraftedTail { body, nonce_len: nonce_len as u8 }
+        }),
         1 => Just(Variant_::NullSecret),
     ]
 }
@@ -166,7 +194,7 @@ fn variant() -> impl Strategy<Value = Variant_> {
 pub fn def() -> PropDef {
     PropDef {
         id: "C16",
-        rule: "passwords (empty, ASCII, multi-byte, lengths on and next to RSA block boundaries, up to 512 bytes) x nonces of 0..64 bytes x RSA 1024/2048/4096 x PKCS#1 / OAEP-SHA1 / OAEP-SHA256; round trip, decrypt under another nonce, arbitrary secrets with lengths in every residue class of the key size, crafted plaintexts (short / long / inconsistent length prefix, body shorter than the nonce) encrypted with the real public key, null secret; non-trivial = multi-block ciphertext, crafted plaintext, wrong-length secret or other nonce; distinct = distinct case",
+        rule: "passwords (empty, ASCII, multi-byte, lengths on and next to RSA block boundaries, up to 512 bytes) x nonces of 0..64 bytes x RSA 1024/2048/4096 x PKCS#1 / OAEP-SHA1 / OAEP-SHA256; round trip, decrypt under another nonce, arbitrary secrets with lengths in every residue class of the key size, crafted plaintexts (short / long / inconsistent length prefix, body shorter than the nonce; consistent prefix with the nonce defined as the tail of the whole plaintext, up to 5 bytes into the length prefix) encrypted with the real public key, null secret; non-trivial = multi-block ciphertext, crafted plaintext, wrong-length secret or other nonce; distinct = distinct case",
         assumptions: &["a different nonce that is a byte-suffix of password||nonce is indistinguishable by construction of the Part 4 secret format; such cases are counted and not asserted"],
         abort_possible: false,
         parts: |tier| {
